@@ -337,7 +337,8 @@ def selection_trees(work, L, tag):
             trees[ln["key"]] = gate.Unsupported("kernel vanished")
             continue
         try:
-            trees[ln["key"]] = gate.gated(mod, fn, control_only=True)
+            with gate.LOCK:
+                trees[ln["key"]] = gate.gated(mod, fn, control_only=True)
         except (gate.Unsupported, RecursionError) as e:
             trees[ln["key"]] = e
     return trees, want
